@@ -46,6 +46,9 @@ impl<'r> Series<'r> {
 
         if name == key::GENOTYPE {
             match self.ty {
+                // A series without values holds no genotype: the value is missing, as in
+                // `read_genotype_values`.
+                Type::Int8(0) => return (i < self.sample_count).then_some(None),
                 Type::Int8(len) => return get_genotype_value(self.src, header, len, i),
                 _ => {
                     return Some(Some(Err(io::Error::new(
